@@ -525,7 +525,6 @@ static void do_search(Ctx &cx, Tree &t, int key)
     else { VP_CHECK(cx, r == &f->second->node, "search:missed_present", "%s search(%d) did not return the resident element", kName, key); }
 }
 
-#if VP_PROP != 3
 // Tall trees: the minimal-node AVL shape of a given height (Fibonacci tree, left- or right-leaning), keys in in-order, inserted
 // level by level (no rotation is needed on the way), 143 .. 28656 nodes; then a few removals at the ends, at the root and at
 // random keys, each followed by the full walk. A removal at the shallow end shrinks a subtree at every level up to the root -
@@ -541,7 +540,11 @@ static void tall_shape(unsigned h, int base, unsigned depth, bool mirror, std::v
 }
 static void tall_scenario(Tape &tp, Ctx &cx, Tree &t)
 {
+#if VP_PROP == 3
+    static unsigned const heights[] = {8, 10, 11, 12, 13, 14}; // every traversal is run after every removal: smaller trees
+#else
     static unsigned const heights[] = {10, 14, 17, 18, 19, 20};
+#endif
     unsigned h = heights[tp.u8() % 6];
     bool mirror = tp.coin();
     std::vector<int> cnt(h + 1, 0);
@@ -580,10 +583,12 @@ static void tall_scenario(Tape &tp, Ctx &cx, Tree &t)
         ++cx.rep->subcases;
         do_remove(cx, t, key);
         check_tree(cx, t);
+#if VP_PROP == 3
+        battery(cx, &t.root, t.model.size());
+#endif
     }
     cx.rep->nontrivial = true;
 }
-#endif
 
 static void run_case(Tape &tp, Ctx &cx)
 {
@@ -610,16 +615,17 @@ static void run_case(Tape &tp, Ctx &cx)
         ~Cleanup() { free_all(t); }
     } cleanup{t};
     (void)cleanup;
-#if VP_PROP != 3
     {
         static bool const no_heavy = getenv("VP_NO_HEAVY") != nullptr;
         if ((ub >> 6) == 3 && !no_heavy && tp.u8() % 4 == 0)
         {
             tall_scenario(tp, cx, t);
+#if VP_PROP == 3
+            tear_down(cx, t, tear_j, tear_mode, true, tear_start);
+#endif
             return;
         }
     }
-#endif
     while (!tp.done() && nops < 400)
     {
         ++nops;
